@@ -21,6 +21,8 @@ impl Clone for SearchOptions { #[verifier::external_body] fn clone(&self) -> (r:
 pub type MaybeControls = Option<Vec<RawControl>>;
 #[derive(Clone, Copy)]
 pub struct Duration { pub d: u64 }
+// std::time::Duration::is_zero (mirror widened after seed C12g: a change that filters on it must reach the verifier)
+impl Duration { pub fn is_zero(&self) -> (r: bool) ensures r == (self.d == 0) { self.d == 0 } }
 pub struct SearchOptions { pub x: u8 }
 pub struct LdapResult { pub rc: u32, pub matched: String, pub text: String, pub refs: Vec<String>, pub ctrls: Vec<Control> }
 pub struct Exop { pub name: Option<String>, pub val: Option<Vec<u8>> }
